@@ -1079,10 +1079,19 @@ func checkExitPathCompletesClose(c *core.Ctx) {
 				if !ok {
 					continue
 				}
-				fl, ok := ds.Call.Fun.(*ast.FuncLit)
-				if !ok {
+				// the deferred exit path: a function literal, or a named function/method of the package
+				var flBody *ast.BlockStmt
+				if lit, ok := ds.Call.Fun.(*ast.FuncLit); ok {
+					flBody = lit.Body
+				} else if f := core.Callee(info, ds.Call); f != nil && f.Pkg() == p.Types {
+					if hd := declOf(p, f); hd != nil {
+						flBody = hd.Body
+					}
+				}
+				if flBody == nil {
 					continue
 				}
+				fl := struct{ Body *ast.BlockStmt }{flBody}
 				// the recovered value and the statement testing it
 				var recVar types.Object
 				var test *ast.IfStmt
